@@ -4,9 +4,11 @@
      reads_as read parse path a        the role [path] is present, the file is readable and [parse]
                                        accepts its text with the tree [a]
      strong_task_described read c t    t is the StrongEquivalenceTask the command line [c] describes:
-                                       left / right = the parsed first / second program file (Files.sort
-                                       order), the three value options passed on, simplify = not
-                                       --no-simplify, break_equivalences = not --no-eq-break
+                                       Files.sort succeeds on the path arguments (no walkdir error: no
+                                       dangling link, no link to a containing directory), left / right =
+                                       the parsed first / second program file (Files.sort order), the
+                                       three value options passed on, simplify = not --no-simplify,
+                                       break_equivalences = not --no-eq-break
      external_task_described read c t  the same for ExternalEquivalenceTask (specification = a program
                                        or a specification file, empty outline if there is no .po file)
      saved_as dir problems writes      [writes] is, problem by problem, (<dir>/<name>.p, problem_display)
@@ -17,6 +19,7 @@
      run_verify_exit0_inv / run_verify_exit0_intro    exit 0 with these files  <->  the described task
                                        decomposes into problems whose Display texts are those files
      run_verify_panic_inv              a panic never comes from writing the files
+     run_verify_sort_error             a walkdir error of Files::sort -> exit status 1, whatever else
      cli_c19_strong / cli_c19_external C19 at the command line: composed with C19_strong_fuel_proof
                                        (Proofs/StrongFullOk.v) and C19_external_proof (Proofs/C19ExtFull.v) *)
 From Coq Require Import List Ascii String Bool.
@@ -96,13 +99,15 @@ Proof.
 Qed.
 
 (* ---------------------------------------------------------------- the task a command line describes *)
-Definition strong_task_described (c : verify_command) (t : strong_task) : Prop :=
-  let files := Files.sort (v_files c) in
+(* [.._in c files t]: over the sorted files [files]; [.._described c t]: Files::sort returns Ok(files) *)
+Definition strong_task_described_in (c : verify_command) (files : Files.files string) (t : strong_task) : Prop :=
   exists left right,
     reads_as Cli.program_from_file (Files.left files) left /\
     reads_as Cli.program_from_file (Files.right files) right /\
     t = mkstrong left right (v_decomposition c) (v_direction c) (v_formula_representation c)
                  (negb (v_no_simplify c)) (negb (v_no_eq_break c)).
+Definition strong_task_described (c : verify_command) (t : strong_task) : Prop :=
+  exists files, Files.sort (v_files c) = Files.WOk files /\ strong_task_described_in c files t.
 
 Definition specification_read (files : Files.files string) (sp : program + specification) : Prop :=
   match sp with
@@ -116,8 +121,7 @@ Definition outline_read (files : Files.files string) (o : specification) : Prop 
   | None => o = []
   end.
 
-Definition external_task_described (c : verify_command) (t : ext_task) : Prop :=
-  let files := Files.sort (v_files c) in
+Definition external_task_described_in (c : verify_command) (files : Files.files string) (t : ext_task) : Prop :=
   exists sp prog ug outline,
     specification_read files sp /\
     reads_as Cli.program_from_file (Files.program files) prog /\
@@ -125,11 +129,18 @@ Definition external_task_described (c : verify_command) (t : ext_task) : Prop :=
     outline_read files outline /\
     t = mkext sp prog ug outline (v_decomposition c) (v_direction c) (v_formula_representation c)
               (v_bypass_tightness c) (negb (v_no_simplify c)) (negb (v_no_eq_break c)).
+Definition external_task_described (c : verify_command) (t : ext_task) : Prop :=
+  exists files, Files.sort (v_files c) = Files.WOk files /\ external_task_described_in c files t.
 
-Lemma strong_task_from_files_got c t :
-  strong_task_from_files read c (Files.sort (v_files c)) = VGot t <-> strong_task_described c t.
+Lemma sort_files_got c files : sort_files c = VGot files <-> Files.sort (v_files c) = Files.WOk files.
+Proof. unfold sort_files. destruct (Files.sort (v_files c)); split; intros H; inversion H; reflexivity. Qed.
+Lemma clean_sort_files c : clean (sort_files c).
+Proof. unfold sort_files. destruct (Files.sort (v_files c)); exact I. Qed.
+
+Lemma strong_task_from_files_got_in c files t :
+  strong_task_from_files read c files = VGot t <-> strong_task_described_in c files t.
 Proof.
-  unfold strong_task_from_files, strong_task_described. cbv zeta.
+  unfold strong_task_from_files, strong_task_described_in.
   rewrite role_got. split.
   - intros [l [Hl H]]. apply role_got in H. destruct H as [r [Hr H]]. inversion H; subst t.
     exists l, r. auto.
@@ -144,11 +155,19 @@ Proof.
   - intros [tx [Hr Hq]]. exists p, tx. auto.
 Qed.
 
-Lemma external_task_from_files_got c t :
-  external_task_from_files read c (Files.sort (v_files c)) = VGot t <-> external_task_described c t.
+(* the task of a command line: Files::sort, then the role files *)
+Lemma strong_task_from_files_got c t :
+  vthen (sort_files c) (strong_task_from_files read c) = VGot t <-> strong_task_described c t.
 Proof.
-  unfold external_task_from_files, external_task_described. cbv zeta.
-  set (files := Files.sort (v_files c)).
+  unfold strong_task_described. rewrite vthen_got. split; intros [files [Hs Ht]]; exists files.
+  - split; [apply sort_files_got; exact Hs|apply strong_task_from_files_got_in; exact Ht].
+  - split; [apply sort_files_got; exact Hs|apply strong_task_from_files_got_in; exact Ht].
+Qed.
+
+Lemma external_task_from_files_got_in c files t :
+  external_task_from_files read c files = VGot t <-> external_task_described_in c files t.
+Proof.
+  unfold external_task_from_files, external_task_described_in.
   rewrite vthen_got. split.
   - intros [spath [Hsp H]]. apply ok_or_got in Hsp.
     apply vthen_got in H. destruct H as [sp [Hsr H]].
@@ -177,6 +196,14 @@ Proof.
       unfold outline_read in Ho. destruct (Files.proof_outline files) as [path'|].
       * apply reads_as_some. exact Ho.
       * subst o. reflexivity.
+Qed.
+
+Lemma external_task_from_files_got c t :
+  vthen (sort_files c) (external_task_from_files read c) = VGot t <-> external_task_described c t.
+Proof.
+  unfold external_task_described. rewrite vthen_got. split; intros [files [Hs Ht]]; exists files.
+  - split; [apply sort_files_got; exact Hs|apply external_task_from_files_got_in; exact Ht].
+  - split; [apply sort_files_got; exact Hs|apply external_task_from_files_got_in; exact Ht].
 Qed.
 
 (* the described task is unique *)
@@ -214,7 +241,8 @@ Lemma clean_decompose_external fuel t : clean (decompose_external fuel t).
 Proof. unfold decompose_external. destruct (external_decompose_full fuel t); exact I. Qed.
 Lemma clean_problems_of fuel c : clean (problems_of read fuel c).
 Proof.
-  unfold problems_of. cbv zeta. destruct (v_equivalence c); apply clean_vthen.
+  unfold problems_of. apply clean_vthen; [apply clean_sort_files|intros files].
+  destruct (v_equivalence c); apply clean_vthen.
   - apply clean_strong_task_from_files.
   - intros ?. apply clean_decompose_strong.
   - apply clean_external_task_from_files.
@@ -233,20 +261,35 @@ Definition decomposes_to (fuel : nat) (c : verify_command) (w : list ext_warning
 Lemma problems_of_got fuel c w problems :
   problems_of read fuel c = VGot (w, problems) <-> decomposes_to fuel c w problems.
 Proof.
-  unfold problems_of, decomposes_to. cbv zeta. destruct (v_equivalence c); rewrite vthen_got.
+  unfold problems_of, decomposes_to. rewrite vthen_got. destruct (v_equivalence c).
   - split.
-    + intros [t [Ht Hd]]. apply strong_task_from_files_got in Ht. unfold decompose_strong in Hd.
+    + intros [files [Hs H]]. apply vthen_got in H. destruct H as [t [Ht Hd]].
+      unfold decompose_strong in Hd.
       destruct (strong_decompose_full_fuel fuel t) as [pbs| |] eqn:E; inversion Hd; subst.
-      split; [reflexivity|]. exists t. auto.
-    + intros [-> [t [Ht Hd]]]. exists t. split; [apply strong_task_from_files_got; exact Ht|].
+      split; [reflexivity|]. exists t. split; [|exact E]. apply strong_task_from_files_got.
+      apply vthen_got. exists files. auto.
+    + intros [-> [t [Ht Hd]]]. apply strong_task_from_files_got in Ht. apply vthen_got in Ht.
+      destruct Ht as [files [Hs Ht]]. exists files. split; [exact Hs|]. apply vthen_got. exists t. split; [exact Ht|].
       unfold decompose_strong. rewrite Hd. reflexivity.
   - split.
-    + intros [t [Ht Hd]]. apply external_task_from_files_got in Ht. unfold decompose_external in Hd.
+    + intros [files [Hs H]]. apply vthen_got in H. destruct H as [t [Ht Hd]].
+      unfold decompose_external in Hd.
       destruct (external_decompose_full fuel t) as [w0 pbs|e| |] eqn:E; inversion Hd; subst.
-      exists t. auto.
-    + intros [t [Ht Hd]]. exists t. split; [apply external_task_from_files_got; exact Ht|].
+      exists t. split; [|exact E]. apply external_task_from_files_got. apply vthen_got. exists files. auto.
+    + intros [t [Ht Hd]]. apply external_task_from_files_got in Ht. apply vthen_got in Ht.
+      destruct Ht as [files [Hs Ht]]. exists files. split; [exact Hs|]. apply vthen_got. exists t. split; [exact Ht|].
       unfold decompose_external. rewrite Hd. reflexivity.
 Qed.
+
+(* Files::sort fails (a dangling link, a link to a directory that contains it): exit status 1 *)
+Theorem run_verify_sort_error fuel c e :
+  Files.sort (v_files c) = Files.WErr e -> run_verify_fuel read fuel c = VError.
+Proof. intros H. unfold run_verify_fuel, problems_of, sort_files. rewrite H. reflexivity. Qed.
+(* ... and a described task exists only if it succeeds *)
+Lemma strong_task_described_sorted c t : strong_task_described c t -> exists files, Files.sort (v_files c) = Files.WOk files.
+Proof. intros [files [H _]]. exists files. exact H. Qed.
+Lemma external_task_described_sorted c t : external_task_described c t -> exists files, Files.sort (v_files c) = Files.WOk files.
+Proof. intros [files [H _]]. exists files. exact H. Qed.
 
 (* ---------------------------------------------------------------- --save-problems *)
 Definition saved_as (out_dir : option string) (problems : list problem) (writes : list (string * string)) : Prop :=
@@ -336,8 +379,8 @@ Definition flags_only (c c' : verify_command) : Prop :=
 Lemma described_same_claim_strong c c' t t' :
   flags_only c c' -> strong_task_described c t -> strong_task_described c' t' -> StrongOk.same_claim t t'.
 Proof.
-  intros [_ [Hd [Hr [_ Hf]]]] [l [r [Hl [Hrr ->]]]] [l' [r' [Hl' [Hrr' ->]]]].
-  cbv zeta in *. rewrite <- Hf in Hl', Hrr'.
+  intros [_ [Hd [Hr [_ Hf]]]] [files [Hs [l [r [Hl [Hrr ->]]]]]] [files' [Hs' [l' [r' [Hl' [Hrr' ->]]]]]].
+  rewrite <- Hf, Hs in Hs'. inversion Hs'; subst files'.
   rewrite (reads_as_fun _ _ _ _ Hl Hl'), (reads_as_fun _ _ _ _ Hrr Hrr').
   unfold StrongOk.same_claim. cbn. auto.
 Qed.
@@ -358,8 +401,9 @@ Qed.
 Lemma described_same_claim_external c c' t t' :
   flags_only c c' -> external_task_described c t -> external_task_described c' t' -> C19Ext.same_claim t t'.
 Proof.
-  intros [_ [Hd [_ [_ Hf]]]] [sp [p [u [o [Hsp [Hp [Hu [Ho ->]]]]]]]] [sp' [p' [u' [o' [Hsp' [Hp' [Hu' [Ho' ->]]]]]]]].
-  cbv zeta in *. rewrite <- Hf in Hsp', Hp', Hu', Ho'.
+  intros [_ [Hd [_ [_ Hf]]]] [files [Hs [sp [p [u [o [Hsp [Hp [Hu [Ho ->]]]]]]]]]]
+         [files' [Hs' [sp' [p' [u' [o' [Hsp' [Hp' [Hu' [Ho' ->]]]]]]]]]].
+  rewrite <- Hf, Hs in Hs'. inversion Hs'; subst files'.
   rewrite (specification_read_fun _ _ _ Hsp Hsp'), (reads_as_fun _ _ _ _ Hp Hp'), (reads_as_fun _ _ _ _ Hu Hu'),
     (outline_read_fun _ _ _ Ho Ho').
   unfold C19Ext.same_claim. cbn. auto.
@@ -418,26 +462,27 @@ Lemma strong_task_flags c t : strong_task_described c t ->
   st_simplify t = negb (v_no_simplify c) /\ st_break t = negb (v_no_eq_break c) /\
   st_decomposition t = v_decomposition c /\ st_direction t = v_direction c /\
   st_repr t = v_formula_representation c.
-Proof. intros [l [r [_ [_ ->]]]]. cbn. auto. Qed.
+Proof. intros [files [_ [l [r [_ [_ ->]]]]]]. cbn. auto. Qed.
 
 Lemma external_task_flags c t : external_task_described c t ->
   et_simplify t = negb (v_no_simplify c) /\ et_break t = negb (v_no_eq_break c) /\
   et_decomposition t = v_decomposition c /\ et_direction t = v_direction c /\
   et_repr t = v_formula_representation c /\ et_bypass_tightness t = v_bypass_tightness c.
-Proof. intros [sp [p [u [o [_ [_ [_ [_ ->]]]]]]]]. cbn. repeat split. Qed.
+Proof. intros [files [_ [sp [p [u [o [_ [_ [_ [_ ->]]]]]]]]]]. cbn. repeat split. Qed.
 
 (* ---------------------------------------------------------------- the fuel *)
 Lemma problems_of_fuel_mono n c x :
   problems_of read n c = x -> x <> VStop VOutOfFuel -> forall m, n <= m -> problems_of read m c = x.
 Proof.
-  unfold problems_of. cbv zeta. intros H Hx m Hm. destruct (v_equivalence c).
-  - destruct (strong_task_from_files read c (Files.sort (v_files c))) as [t|r]; cbn in *; [|exact H].
+  unfold problems_of. intros H Hx m Hm. destruct (sort_files c) as [files|r0]; cbn [vthen] in *; [|exact H].
+  destruct (v_equivalence c).
+  - destruct (strong_task_from_files read c files) as [t|r]; cbn in *; [|exact H].
     unfold decompose_strong in *.
     destruct (strong_decompose_full_fuel n t) as [pbs| |] eqn:E.
     + rewrite (strong_decompose_full_fuel_mono n t (SOk pbs) E ltac:(discriminate) m Hm). exact H.
     + rewrite (strong_decompose_full_fuel_mono n t SPanic E ltac:(discriminate) m Hm). exact H.
     + subst x. exfalso. apply Hx. reflexivity.
-  - destruct (external_task_from_files read c (Files.sort (v_files c))) as [t|r]; cbn in *; [|exact H].
+  - destruct (external_task_from_files read c files) as [t|r]; cbn in *; [|exact H].
     unfold decompose_external in *.
     destruct (external_decompose_full n t) as [w pbs|e| |] eqn:E.
     + rewrite (external_decompose_full_mono n t _ E ltac:(discriminate) m Hm). exact H.
